@@ -1,6 +1,6 @@
 import MxModel.Proofs.IOSpecClosed
 import MxModel.Proofs.IOKeys
-import MxModel.Proofs.IOSession
+import MxModel.Proofs.IOSessionInv
 /-!
 # C18 – an IOSpec lives exactly as long as a reference to its value
 
@@ -433,17 +433,17 @@ of the session-wide group `None` serves both `m` and `m'`. -/
 
 /-- **A spec survives what other models do** (here: their `close`) - `Model.iospecs` of `m'`, with the files' keys,
 is unchanged.  Partial: `AbsPrivate` (C18-absolute-io-shared). -/
-theorem spec_survives_other_close_partial (st : IOSession.St) (m m' : Nat) (hne : m ≠ m')
-    (hdet : IOSession.SidDet st) (hpriv : IOSession.AbsPrivate st m m') :
-    IOSession.specsOf (IOSession.closeModel st m) m' = IOSession.specsOf st m' :=
-  (IOSession.closeModel_frame st m m' hne hdet hpriv).1
+theorem spec_survives_other_close_partial (ops : List IOSession.Op) (m m' : Nat) (hne : m ≠ m')
+    (hpriv : IOSession.AbsPrivate (IOSession.run {} ops) m m') :
+    IOSession.specsOf (IOSession.closeModel (IOSession.run {} ops) m) m' = IOSession.specsOf (IOSession.run {} ops) m' :=
+  (IOSession.closeModel_frame _ m m' hne (IOSession.reachable_inv ops).det hpriv).1
 
 /-- the negation: one object referenced from two models, its file under an absolute path - `get_spec_from_value`
 of the second model finds the first model's spec in group `None`, and closing the second deletes it -/
-example : ¬ (∀ (st : IOSession.St) (m m' : Nat), m ≠ m' → IOSession.SidDet st →
-    IOSession.specsOf (IOSession.closeModel st m) m' = IOSession.specsOf st m') := by
+example : ¬ (∀ (ops : List IOSession.Op) (m m' : Nat), m ≠ m' →
+    IOSession.specsOf (IOSession.closeModel (IOSession.run {} ops) m) m' = IOSession.specsOf (IOSession.run {} ops) m') := by
   intro h
-  have := h IOSession.sharedValue 1 0 (by decide) (by decide +kernel)
+  have := h [.newModel, .newModel, .newSpec 0 "S.a" ⟨true, "x/a.csv"⟩ false none 1, .bind 1 "S.a" 1] 1 0 (by decide)
   revert this
   decide +kernel
 
